@@ -369,6 +369,12 @@ def run(r: core.Run, mode, prop_module, what, known_ops_key="ops"):
             break
     if bad:
         return
+    crash = core.crash_of(tie)
+    if crash:
+        r.violation({"protocol": "query", "statement": crash[0], "crash": crash[1],
+                     "what": "executing the statement crashes the process — a panic in a goroutine the engine spawned, which no caller can recover: " + crash[1],
+                     "how_to_replay": "run the statement on a store that holds the graphs it names (the crash may depend on scheduling)"})
+        return
     if not pr["ok"] or tie is not None:
         r.violation({"protocol": "query", "mode": mode,
                      "what": "proof obligation or correspondence no longer checks; no query on which the implementation contradicts the specification was found",
